@@ -64,7 +64,17 @@ func VerifC20_NoLeak() {
 					verif.Cover("bootstrap-loaded")
 				}
 			}
-			m.Servers = []v2.ServerConfig{{Listeners: []v2.Listener{zzListener("boot", k, n)}}}
+			// how the process is run decides nothing about redaction: from a file, from a file plus
+			// an xDS control plane (mix: servers and both resource sections), from xDS alone
+			mode := verif.Choose("bootstrap_mode", 3)
+			if mode != 2 {
+				m.Servers = []v2.ServerConfig{{Listeners: []v2.Listener{zzListener("boot", k, n)}}}
+			}
+			if mode != 0 {
+				m.RawStaticResources = json.RawMessage("{}")
+				m.RawDynamicResources = json.RawMessage("{}")
+				verif.Cover("xds-or-mix-mode")
+			}
 			SetMosnConfig(m)
 		case 1:
 			SetListenerConfig(zzListener("l"+string(rune('0'+i%2)), k, n))
